@@ -381,12 +381,15 @@ func (s *seqCtx) messages() {
 				b.Body = &types.Body{}
 			}
 			edit := s.editHeader(b, false, "proposalEdit")
+			editClass := strings.SplitN(edit, "|", 2)[0]
 			if kind == "future-proposal" && b.Header != nil && b.Header.ProposedHeader != nil {
 				b.Header.ProposedHeader.Height += uint64(1 + pick(t, "ahead", 2))
 				edit += "+future"
+				evid.Count("seq.msg.proposal_for_future_round")
 			}
 			if len(proof) == 0 {
 				edit += "(no sortition)"
+				evid.Count("seq.msg.proposal_without_sortition")
 			}
 			signed := p.signProposal(b, proof)
 			step := fmt.Sprintf("ProposeBlock round %d: %s edit=%s", round, blockDesc(b), edit)
@@ -401,7 +404,10 @@ func (s *seqCtx) messages() {
 			if added {
 				res = "added"
 			}
-			evid.Count("seq.msg.proposal." + strings.SplitN(edit, "|", 2)[0] + "." + res)
+			evid.Count("seq.msg.proposal." + editClass + "." + res)
+			if added && len(s.trace) > 0 && strings.Contains(strings.Join(s.trace, ";"), "-> accepted") {
+				evid.Count("seq.proposal_added_after_delivered_head")
+			}
 			s.note("proposal edit=%s -> handle=%v %s", edit, herr, res)
 		case "proof":
 			signer := w.Actors[pick(t, "proofSigner", len(w.Actors))]
